@@ -213,7 +213,8 @@ def poolkey_new_override(itp, st, args, ctx):
     return _poolkey(l, r)
 
 
-def subsidy_kernel(chk, it):
+def subsidy_kernel(chk, it, mode='func'):
+    """mode 'func': the conservation claims (C01); mode 'panic': only that apply_tip_909 cannot panic (C09)"""
     from props import c15
     G.reset()
     st = State()
@@ -242,8 +243,14 @@ def subsidy_kernel(chk, it):
     for idx, (s, o) in enumerate(outs):
         name = 'apply_tip_909/%d' % idx
         if isinstance(o, Panic):
+            if mode == 'panic':
+                chk.obligation('PANIC/' + name, list(s.pc), z3.BoolVal(False), inputs, replay=lambda mo: replay_subsidy(chk, mo, inputs),
+                               kind='PANIC', describe=str(o), arith='int',
+                               bound='built-in pools with reserves in [1, 2^127], fee pool <= 2^127, every height <= 10^8 and network')
             continue
         n += 1
+        if mode == 'panic':
+            continue
         calls = [e[1] for e in s.events if e[0] == 'swap_many'] + [e[2][1] for e in s.events if e[0] == 'when' and e[2][0] == 'swap_many']
         if len(calls) != 2:
             raise Inconclusive('expected two swap_many calls in apply_tip_909, saw %d' % len(calls))
@@ -268,6 +275,7 @@ def subsidy_kernel(chk, it):
                               M.tree_extensional_eq(it, s, state.fields[3].fields[0].data, post.fields[3].fields[0].data)),
                        inputs, replay=lambda mo: replay_subsidy(chk, mo, inputs), bound='MEL conserved; coins, tips, multiplier, speed untouched',
                        arith='int')
+    chk.sample({'kernel': 'apply_tip_909', 'mode': mode, 'paths': len(outs), 'feasible_panic_paths': len([1 for _s, _o in outs if isinstance(_o, Panic)])})
     if not n:
         raise Inconclusive('apply_tip_909 has no returning path')
     it.base_read_hooks.pop('pools', None)
